@@ -86,6 +86,7 @@ type instOpts struct {
 	xffHeader   string
 	logQueries  bool
 	idleTimeout int // seconds, stream listeners
+	metrics     bool // the prometheus endpoint is configured (its port: in.ports["metrics"])
 }
 
 // newInst builds a configuration, starts fake upstreams and the real router in-process.
@@ -143,6 +144,10 @@ func newInstDup(name string, o instOpts, dupUp, dupSet bool) (*inst, error) {
 	cfg.Limiter = o.limiter
 	pickPorts := func() {
 		cfg.Servers = nil
+		if o.metrics {
+			in.ports["metrics"] = freePort(false)
+			cfg.Metrics.Addr = fmt.Sprintf("127.0.0.1:%d", in.ports["metrics"])
+		}
 		for _, k := range o.listeners {
 			p := freePort(k == "udp" || k == "quic" || k == "udpmr")
 			in.ports[k] = p
